@@ -562,7 +562,8 @@ fn miri_body(thorough: bool, part: &str) {
     // (m2b) a Difficulty that itself carries passed_objects(k): every history of <= 2 (thorough 3) next / nth(1) calls
     for &mode in &modes {
         let map = small_map(mode);
-        for limit in [Some(0u32), Some(1)] {
+        let limits: &[Option<u32>] = if thorough { &[Some(0), Some(1)] } else { &[Some(0)] };
+        for &limit in limits {
             let hs: Vec<Vec<GOp>> = gradual_histories(if thorough { 3 } else { 2 }).into_iter().filter(|h| h.iter().all(|o| matches!(o, GOp::Next | GOp::Nth1))).collect();
             for h in hs {
                 println!("MIRI-STEP gradual mode={mode} passed_objects={limit:?} history={h:?}");
